@@ -102,12 +102,13 @@ type runner struct {
 
 func Run(c *verdict.Ctx) int {
 	c.Level = "fault_enumeration"
-	c.Rule = "a history (chain + save/prune sequence) in which at least one PruneBlocks+PruneStates pair completed and at least one crash prefix was audited; distinct by (stream, shape, digest of the operation sequence)"
+	c.Rule = "a history (chain + save/prune sequence) in which at least one PruneBlocks+PruneStates pair completed and at least one crash prefix was audited; distinct by (stream, shape, digest of the operation sequence); stream cons: a chain committed by a real consensus state in which at least one retain height led to a completed prune and at least one crash was injected before a prune write, distinct by (shape, sequence of retain-height kinds)"
 	c.Assume(
 		"a crash leaves exactly a prefix of the sequence of DB write calls of the running operation; a Batch.Write/WriteSync is atomic (tm-db backends write a batch as one unit); block DB and state DB are separate and a crash interrupts one operation on one of them",
 		"MemDB stands in for the on-disk backend: no write reordering, no torn values",
 		"truth (block ids, validator sets, consensus params per height) is recorded from the real executor's returned states (chaingen), commits are judged by ref.TallyCommit",
 		"C:<first-1>, the empty last-commit record of the first block ever saved, is not counted as a leftover of pruning (it belongs to no height that was ever in the store)",
+		"stream cons: the writes of consensus.pruneBlocks are recognised as the block/state DB writes after the state save that follows the application's Commit, up to the end of the height; a crash is a panic raised before such a write (the simulator halts the node like receiveRoutine's recover), after which fresh stores and a fresh node are opened on the same databases; the forked chain replays the same transactions per height, so its validator/parameter history equals the main line's",
 		"not demanded: that state-store records below the retain height disappear (PruneStates documents that it may leave some), nor that leftovers of a crashed prune are ever collected",
 	)
 
@@ -126,6 +127,15 @@ func Run(c *verdict.Ctx) int {
 	add("medium", c.N(20, 120))
 	add("small", c.N(120, 1200))
 
+	if only := os.Getenv("VERIF_C18_ONLY"); only != "" { // development aid: "stream" or "stream/index"
+		var sel []caseSpec
+		for _, cs := range cases {
+			if cs.Stream == only || fmt.Sprintf("%s/%d", cs.Stream, cs.Index) == only {
+				sel = append(sel, cs)
+			}
+		}
+		cases = sel
+	}
 	if rp := c.Replay(); rp != "" {
 		var w struct {
 			Stream string `json:"stream"`
@@ -169,15 +179,19 @@ func Run(c *verdict.Ctx) int {
 	close(jobs)
 	wg.Wait()
 
-	if c.Replay() == "" && (c.Counter("crash_prefixes_audited") == 0 || c.Counter("op.pruneblocks") == 0) {
+	partial := c.Replay() != "" || os.Getenv("VERIF_C18_ONLY") != ""
+	if !partial && (c.Counter("crash_prefixes_audited") == 0 || c.Counter("op.pruneblocks") == 0) {
 		c.HarnessError("observed nothing: crash prefixes=%d prunes=%d", c.Counter("crash_prefixes_audited"), c.Counter("op.pruneblocks"))
 	}
-	if c.Replay() == "" && (c.Counter("cons.crashes_injected") == 0 || c.Counter("cons.prunes_crossing_batch_boundary") == 0 || c.Counter("cons.retain.above-height") == 0) {
+	if !partial && (c.Counter("cons.crashes_injected") == 0 || c.Counter("cons.prunes_crossing_batch_boundary") == 0 || c.Counter("cons.retain.above-height") == 0) {
 		c.HarnessError("consensus stage observed too little: crashes=%d batch prunes=%d refused retain heights=%d",
 			c.Counter("cons.crashes_injected"), c.Counter("cons.prunes_crossing_batch_boundary"), c.Counter("cons.retain.above-height"))
 	}
-	if c.Replay() == "" && c.Counter("prunes_crossing_batch_boundary") == 0 {
+	if !partial && c.Counter("prunes_crossing_batch_boundary") == 0 {
 		c.HarnessError("no prune crossed the %d-block batch boundary", pruneBatch)
+	}
+	if partial {
+		return c.Finish(0)
 	}
 	return c.Finish(c.N(60, 500))
 }
